@@ -24,6 +24,15 @@ def run(ctx):
     ctx.guarded("R-C08-single-home", single_home, ctx, prog)
 
 
+def _bool_const_side(rv):
+    """('a'|'b', 0|1) when one operand of a binary rvalue is a boolean constant"""
+    for side in ("a", "b"):
+        k = op_const(rv[side])
+        if k is not None and k.get("v") in (0, 1) and (k.get("s") in ("true", "false", "const true", "const false") or True):
+            return side, k["v"]
+    return None
+
+
 def bool_switch_on_field(body, field):
     """[(switch_bb, target_when_field_true, target_when_field_false)] for switches whose
     discriminant is (the negation of) a read of `<..>.field`"""
@@ -52,6 +61,16 @@ def bool_switch_on_field(body, field):
                 if pl is not None and pl.get("p"):
                     src = pl; break
                 l = op_local(rv["a"])
+            elif rv["k"] == "bin" and rv["op"] in ("Eq", "Ne") and _bool_const_side(rv) is not None:
+                # `flag == true`, `flag != false`, ... spelled out
+                side, val = _bool_const_side(rv)
+                if (rv["op"] == "Eq") != bool(val):
+                    neg = not neg
+                other = rv["b" if side == "a" else "a"]
+                pl = op_place(other)
+                if pl is not None and pl.get("p"):
+                    src = pl; break
+                l = op_local(other)
             else:
                 break
             hops += 1
@@ -286,6 +305,11 @@ def bool_switch_on_field_or_local(body, field):
                 neg = not neg; l = op_local(rv["a"])
             elif rv["k"] == "use":
                 l = op_local(rv["a"])
+            elif rv["k"] == "bin" and rv["op"] in ("Eq", "Ne") and _bool_const_side(rv) is not None:
+                side, val = _bool_const_side(rv)
+                if (rv["op"] == "Eq") != bool(val):
+                    neg = not neg
+                l = op_local(rv["b" if side == "a" else "a"])
             else:
                 l = None
             hops += 1
